@@ -5,7 +5,7 @@
 set -e
 D=$(mktemp -d /tmp/verif-baseline-XXXXXX)
 trap 'rm -rf "$D"' EXIT
-cmake -G Ninja -S "${W2C2_REPO:-/repo}" -B "$D" >/dev/null
+cmake -G Ninja -S "${W2C2_REPO:-/repo}" -B "$D" >/dev/null 2>&1
 cmake --build "$D" >/dev/null
 cd "$D"
 ./w2c2/w2c2_test > w2c2_test.log 2>&1
